@@ -127,7 +127,7 @@ class C08(Property):
             'equilibria (constants +-2 decades, initial concentrations log-uniform 1e-6..1, water 55.5) under the default chain and '
             'the variants log/lin/square/loglin/loglin_rref/condchain; single-salt precipitation systems (5 salts, either '
             'direction); single equilibria against solve_equilibrium (brentq). Buckets "solve:*" in input_distribution carry the '
-            'outcome counts. Success rate (success & sane & genuine, threshold 80% of >= 40 runs) is evaluated by four "rate" cases: '
+            'outcome counts. Success rate (success & sane & genuine; failures <= max(2, floor(0.05 n)), n >= 40) is evaluated by four "rate" cases: '
             'root() default (NumSysLog) and the solve()/_solve default chain (NumSysLog, NumSysLin), each on the general pool and on '
             'multi-equilibrium acid/base systems (water + 2-4 of ammonia/acetate/carbonate x2, constants +-1.5 decades, initial '
             'concentrations 1e-6..1e-1). Structural "stages" cases: for multi-stage chains of every neqsys type the residual function '
@@ -138,10 +138,30 @@ class C08(Property):
         'The theorems cover the sanity check, the bounds, dissolved(), the switch conditions and the scalar bracket/residual.',
         'exact model vs Python driven with Fractions / dyadic floats; float rounding inside chempy is not modelled '
         '(numpy float division by zero giving inf/nan instead of ZeroDivisionError is outside the model)',
-        'success-rate criterion: each default chain (root: NumSysLog; solve/_solve: (NumSysLog, NumSysLin)) must give success, sane and '
-        'genuine results on >= 80% of >= 40 well-conditioned homogeneous runs, per pool '
+        'success-rate criterion (the 19-of-20 clause of the property): each default chain (root: NumSysLog; solve/_solve: (NumSysLog, NumSysLin)) must '
+        'give success, sane and genuine results on all but max(2, floor(0.05 n)) of n >= 40 well-conditioned homogeneous runs, per pool; '
+        'n and the number of failures are in the solve:rate:* buckets '
         '(property asks 19/20; the margin avoids flakiness, the measured rate is in the failure text / notes)',
         'oracle tolerances: totals |delta| <= 1e-8*sum|a_kj c0_j| + 1e-10*max(c0), Q=K rtol 1e-6, solid counted as absent below max(4*exp(-36), 1e-12*scale)',
+    )
+    clauses_without_theorem = (
+        'success AND sane => genuine, as a statement about real runs: that a run reporting sol["success"] has driven the residual of its '
+        'last stage to zero (the meaning of "success" in pyneqsys/scipy) is sampled only; the theorems give residual zero AND sane => '
+        'genuine (zero_residual_and_sane_is_genuine) and the dichotomy for the final state of the conditional iteration '
+        '(precipitate_dichotomy). It is FALSE on the pinned tree for chains ending in NumSysLin/NumSysSquare '
+        '(open finding lm-nonroot-reported-as-success).',
+        'convergence of the delegated root finders (pyneqsys ConditionalNeqSys/ChainedNeqSys loops, scipy root lm/hybr, brentq), '
+        'termination of the condition-switching loop (conditional_maxiter), existence of the root in the brentq bracket (needs continuity '
+        'over the reals; uniqueness IS proved): sampled only',
+        'the default solver chains report success in at least 19 of 20 well-conditioned homogeneous cases: measured by the four rate cases '
+        '(root default, solve()/_solve default chain; general and acid/base pools), threshold failures <= max(2, floor(0.05 n))',
+        'numerical agreement of EqSystem.root on single equilibria with solve_equilibrium (brentq): sampled (rtol 1e-5, atol 1e-11 + 1e-9 max c0); '
+        'the theorem side is that both characterise the same unique state (scalar_root_is_equilibrium_and_unique + C07 lin/log_zero_iff)',
+        'precipitation clause on real runs (5 salts, all chains): oracle only; precipitate_dichotomy assumes small = 0 in the off-branch '
+        '(NumSysLin; for NumSysLog/Square an absent solid is represented by small = exp(-36) resp. 1e-35) and single-salt systems',
+        'pre/post-processors, internal_x0_cb and float rounding of the NumSys formulations; stage i of a chain uses formulation i '
+        '(structural "stages" oracle, no theorem); rref_equil / rref_preserv variants',
+        'the default tolerances rtol=1e-9 / 1e-14 are model constants tied to the source by correspondence buckets (sane:default-*, fw:default-*), not extracted',
     )
     anchors = (
         ('chempy/equilibria.py', 'EqSystem._result_is_sane'),
@@ -934,8 +954,23 @@ class C08(Property):
                 return None
             return 'solve_equilibrium: Q/K = %r and the residual keeps its sign within +-%g of the returned coordinate' % (1 - f0 / K, d)
         if kind == 'rate':
-            n = len(c['runs'])
-            ok = 0
+            ok, n = self._rate(c)
+            allowed = max(2, (5 * n) // 100)      # the property: at least 19 of 20 -> failures <= max(2, floor(0.05 n)), n >= 40
+            if n >= 40 and n - ok > allowed:
+                return ('%s gave success, a sane and a genuine result on only %d of %d well-conditioned homogeneous %s systems '
+                        '(%d failures, at most %d allowed by the 19-of-20 clause)' % (
+                            c.get('chain', 'default chain'), ok, n, c.get('pool', ''), n - ok, allowed))
+            return None
+        if kind == 'stages':
+            return self._oracle_stages(c)
+        return None
+
+    def _rate(self, c):
+        """(number of runs that are success & sane & genuine, number of runs) of a rate case (runs are cached)"""
+        n = len(c['runs'])
+        ok = 0
+        with warnings.catch_warnings():
+            warnings.simplefilter('ignore')
             for d in c['runs']:
                 r = self._run(d)
                 if r['success'] and r['sane']:
@@ -943,15 +978,9 @@ class C08(Property):
                         es = self._build_pool(d)
                         r['genuine'] = self._genuine(es, es.as_per_substance_array(dict(zip(d['subs'], d['init']))), r['x']) is None
                     ok += bool(r['genuine'])
-            self.measured_rates = getattr(self, 'measured_rates', {})
-            self.measured_rates[(c.get('chain'), c.get('pool'))] = (ok, n)
-            if n >= 40 and ok < 0.8 * n:
-                return '%s reported success, a sane and a genuine result on only %d of %d well-conditioned homogeneous %s systems' % (
-                    c.get('chain', 'default chain'), ok, n, c.get('pool', ''))
-            return None
-        if kind == 'stages':
-            return self._oracle_stages(c)
-        return None
+        self.measured_rates = getattr(self, 'measured_rates', {})
+        self.measured_rates[(c.get('chain'), c.get('pool'))] = (ok, n)
+        return ok, n
 
     def _oracle_stages(self, c):
         """stage i of a multi-stage chain must be built from NumSys class i: the residual function (and the post-processor) of each
@@ -1030,7 +1059,8 @@ class C08(Property):
         if k in ('homog', 'salt', 'single'):
             return 'solve:%s:%s:%s' % (c.get('family', k), c['variant'], self._run(c)['outcome'])
         if k == 'rate':
-            return 'solve:rate:%s:%s' % (c.get('pool'), 'solve' if 'solve' in c.get('chain', '') else 'root')
+            ok, n = self._rate(c)
+            return 'solve:rate:%s:%s:n=%d:failures=%d' % (c.get('pool'), 'solve' if 'solve' in c.get('chain', '') else 'root', n, n - ok)
         if k == 'stages':
             return 'stages:%s:%s' % (c['neqsys_type'], '-'.join(c['chain']))
         return 'solve:' + str(k)
